@@ -112,6 +112,13 @@ struct Sched {
 }
 
 impl Sched {
+    /// records a frame that was already sent (pipelined behind the Encryption Response)
+    fn record_sent(&mut self, now: u64, due: u64, label: &str, len: usize) {
+        let idx = self.next_idx;
+        self.next_idx += 1;
+        self.tl.lock().unwrap().frames.push(FrameRec { idx, label: label.to_string(), scheduled_at: now, due, len });
+    }
+
     fn schedule(&mut self, now: u64, due: u64, label: &str, frame: Vec<u8>) {
         let idx = self.next_idx;
         self.next_idx += 1;
@@ -141,7 +148,7 @@ fn plugin_frame(n: u16) -> Vec<u8> {
 }
 
 /// The client. Returns when the server ended the exchange or the horizon passed.
-pub async fn timed_client(c: &mut Client, sc: &Scenario, plan: SegPlan, tl: Arc<Mutex<Timeline>>) {
+pub async fn timed_client(c: &mut Client, sc: &Scenario, plan: SegPlan, tl: Arc<Mutex<Timeline>>, pipeline: u8) {
     let secret16: [u8; 16] = *b"fedcba9876543210";
     c.cb_phase = rc::Phase::Login;
     c.send(&Pkt::Handshake { protocol: 770, host: "timed.example.org".into(), port: 25565, next: sc.intent });
@@ -150,6 +157,10 @@ pub async fn timed_client(c: &mut Client, sc: &Scenario, plan: SegPlan, tl: Arc<
     let mut ka_count = 0usize;
     let mut prev_id: Option<u64> = None;
     let mut horizon: Option<u64> = None;
+    // frames sent early, in the same segment as the Encryption Response (only those that are due at the
+    // instant of Login Success anyway, so that the timeline is unchanged)
+    let early_ack = pipeline >= 1 && sc.ack_delay_ms == 0;
+    let early_info = early_ack && pipeline >= 2 && sc.info_delay_ms == Some(0);
     loop {
         // deliver everything that is due
         let now = c.now_ms();
@@ -185,6 +196,12 @@ pub async fn timed_client(c: &mut Client, sc: &Scenario, plan: SegPlan, tl: Arc<
                 if let Some(resp) = c.encryption_response(&EncResp::Honest, &secret16) {
                     c.send(&resp);
                     c.enable_encryption(&secret16);
+                    if early_ack {
+                        c.push(&Pkt::LoginAck.frame());
+                    }
+                    if early_info {
+                        c.push(&sim::client_information(&sc.locale).frame());
+                    }
                 }
             }
             Pkt::LoginSuccess { .. } => {
@@ -195,11 +212,19 @@ pub async fn timed_client(c: &mut Client, sc: &Scenario, plan: SegPlan, tl: Arc<
                     g.login_success_at = Some(t);
                     g.ack_due = Some(ack);
                 }
-                sched.schedule(now, ack, "LoginAck", Pkt::LoginAck.frame());
+                if early_ack {
+                    sched.record_sent(now, ack, "LoginAck", Pkt::LoginAck.frame().len());
+                } else {
+                    sched.schedule(now, ack, "LoginAck", Pkt::LoginAck.frame());
+                }
                 if let Some(d) = sc.info_delay_ms {
                     let info = ack + u64::from(d);
                     tl.lock().unwrap().info_due = Some(info);
-                    sched.schedule(now, info, "ClientInformation", sim::client_information(&sc.locale).frame());
+                    if early_info {
+                        sched.record_sent(now, info, "ClientInformation", sim::client_information(&sc.locale).frame().len());
+                    } else {
+                        sched.schedule(now, info, "ClientInformation", sim::client_information(&sc.locale).frame());
+                    }
                 }
                 for e in &sc.extras {
                     let due = ack + u64::from(e.after_ack_ms);
@@ -245,11 +270,15 @@ pub async fn timed_client(c: &mut Client, sc: &Scenario, plan: SegPlan, tl: Arc<
 }
 
 pub fn run(sc: &Scenario, transport: &TransportScript, plan: &SegPlan, select_seed: u64) -> (SimOutcome, Timeline) {
+    run_pipelined(sc, transport, plan, select_seed, 0)
+}
+
+pub fn run_pipelined(sc: &Scenario, transport: &TransportScript, plan: &SegPlan, select_seed: u64, pipeline: u8) -> (SimOutcome, Timeline) {
     let tl = Arc::new(Mutex::new(Timeline::default()));
     let tl2 = Arc::clone(&tl);
     let sc2 = sc.clone();
     let plan2 = plan.clone();
-    let out = sim::run_sim(&sc.cfg, &sc.adapters, transport, select_seed, 40_000, crate::client_fn!(|c| timed_client(c, &sc2, plan2, tl2).await));
+    let out = sim::run_sim(&sc.cfg, &sc.adapters, transport, select_seed, 40_000, crate::client_fn!(|c| timed_client(c, &sc2, plan2, tl2, pipeline).await));
     let t = tl.lock().unwrap().clone();
     (out, t)
 }
